@@ -82,7 +82,7 @@ PREFIX = {'lbc_mainnet': (bytes.fromhex('0488ade4'), bytes.fromhex('0488b21e'), 
 
 
 def plan(tier):
-    return {'shards': 16, 'budget_s': 40 if tier == 'quick' else 600}
+    return {'shards': 16, 'budget_s': 45 if tier == 'quick' else 540}
 
 
 # ------------------------------------------------------------------------------ passwords
